@@ -30,7 +30,7 @@ BUFFERS = [16, 24, 32, 64, 100, 120, 128, 248, 256, 512]
 def plan(tier, prop):
     quick = tier == "quick"
     return {
-        "runs": 3000 if quick else 200000,
+        "runs": 8000 if quick else 300000,
         "budget_s": 50 if quick else 800,
         "chunk": 20 if quick else 100,
         "rule": "each run = one seeded machine (1x1..16x16, thorough: sparse "
